@@ -132,7 +132,7 @@ def sites(F):
             if t["k"] != "call":
                 continue
             cls = atomic_class(t)
-            if cls not in (model.ATOMIC_NEW, model.ATOMIC_RMW_ADD, model.ATOMIC_RMW_SUB, model.ATOMIC_LOAD, model.ATOMIC_OTHER, model.FENCE):
+            if cls not in (model.ATOMIC_NEW, model.ATOMIC_RMW_ADD, model.ATOMIC_RMW_SUB, model.ATOMIC_LOAD, model.ATOMIC_OTHER, model.ATOMIC_CAS, model.FENCE):
                 continue
             if B is None:
                 B = cfg.Body(b)
@@ -145,6 +145,18 @@ def sites(F):
                 ordr = ordering_of(B, t["args"][0])
             out.append((b, B, bi, t, cls, ordr))
     return out
+
+
+def cas_increment(t):
+    """(current, new) of `compare_exchange(current, new, ..)` with constant operands and new > current, else None."""
+    if len(t["args"]) < 3:
+        return None
+    c1, c2 = operand_const(t["args"][1]), operand_const(t["args"][2])
+    cur = c1.get("int") if c1 else None
+    new = c2.get("int") if c2 else None
+    if cur is None or new is None or new <= cur:
+        return None
+    return (cur, new)
 
 
 def compare_with_const(B, switch_term):
